@@ -21,6 +21,7 @@ type vReplayFile struct {
 	Model   map[string]any    `json:"model"`
 	Label   string            `json:"label"`
 	Tags    map[string]string `json:"tags"`
+	Image   any               `json:"image"`
 }
 
 type vAssumeFalse struct{}
